@@ -110,6 +110,15 @@ def gen_c03(tier, rng):
         if r_ and s_ and (r_ + k_) % N:
             yield ('valid-with-zero-limb-t', 'sm2_verify_raw %s %s %s%s' % (E.enc(E.mul(d_, E.G)), H(e_), H(r_), H(s_)), 'OK')
             yield ('sign-raw-zero-limb-t', 'sm2_sign_raw %s %s %s' % (H(d_), H(e_), H(k_)), None)
+    # a VALID signature whose two summands coincide ([s]G = [t]P in different Jacobian representations): the doubling branch
+    for _ in range(3 if tier == 'thorough' else 2):
+        dd = rscalar(rng, 2, N - 1)
+        ss = rscalar(rng)
+        tt = ss * pow(dd, -1, N) % N
+        rr = (tt - ss) % N
+        ee = (rr - E.mul(2 * ss % N, E.G)[0]) % N
+        if rr and tt:
+            yield ('valid-with-equal-summands', 'sm2_verify_raw %s %s %s%s' % (E.enc(E.mul(dd, E.G)), H(ee), H(rr), H(ss)), 'OK')
     # one key, different IDs one after another on ONE thread (Z_A depends on the ID, not only on the key)
     kq = [good_k(rng) for _ in range(4)]
     yield ('same-key-different-ids-history', 'seq sm2_sign %s %s %s %s ; %s %s %s %s ; %s default %s %s ; %s %s %s %s' % (
@@ -293,6 +302,10 @@ def gen_c05(tier, rng):
     for klen in range(0, maxk + 1):
         z = rb(rng, rng.choice([0, 1, 32, 64, 64, 100]))
         yield ('kdf-klen' + ('-mult32' if klen % 32 == 0 else ''), 'sm2_kdf %s %d' % (hx(z), klen), None)
+    # far-away blocks of the key stream (counter carries into its 2nd, 3rd and 4th byte): block 256, 65536, 2^24
+    zz = rb(rng, 64)
+    for blk in (1, 2, 255, 256, 257, 511, 512, 65535, 65536, 65537, 70000) + ((1 << 24, (1 << 24) + 1) if tier == 'thorough' else ()):
+        yield ('kdf-far-block', 'sm2_kdf_block %s %d' % (hx(zz), blk), None)
     for klen in (1024, 4096, 8160, 8161, 8192, 8300, 16384, 65536) if tier == 'thorough' else (1024, 8160, 8161, 8300):
         yield ('kdf-long', 'sm2_kdf %s %d' % (hx(rb(rng, 64)), klen), None)
     d = rscalar(rng, 1, N - 1)
@@ -312,6 +325,11 @@ def gen_c05(tier, rng):
     for dd in edge_keys():
         yield ('edge-keys', 'sm2_ed %s %s 0 c1c3c2 %s' % (H(dd), hx(rb(rng, 20)), good_k(rng)), None)
         yield ('edge-nonces', 'sm2_ed %s %s 1 c1c2c3 %s' % (H(rscalar(rng, 1, N - 1)), hx(rb(rng, 20)), H(dd)), None)
+    # encrypting to P and then to -P, both given in COMPRESSED form (same x, other prefix), one after the other on one thread
+    Qh = E.mul(rscalar(rng), E.G)
+    c02 = ('02' if Qh[1] % 2 == 0 else '03') + H(Qh[0]); c03 = ('03' if Qh[1] % 2 == 0 else '02') + H(Qh[0])
+    yield ('compressed-key-history', 'seq sm2_enc %s %s 0 c1c3c2 %s ; %s %s 0 c1c3c2 %s ; %s %s 1 c1c2c3 %s' % (
+        c02, hx(b'abc'), good_k(rng), c03, hx(b'abc'), good_k(rng), c02, hx(b'xyz'), good_k(rng)), None)
     # all-zero-t retry (step A5) for a 1-byte message, CRAFTED: nonces k with KDF(x2||y2, 1) = 00 found with the independent
     # Python EC + SM3; the encryption must reject them and use the next candidate
     from .sm9py import sm3 as _sm3
@@ -488,6 +506,7 @@ def gen_c06(tier, rng):
         kk += 1
     # the DER form of the ciphertext: a hash field that is not 32 bytes must be refused, not padded
     yield from asn1_c3_short_cases(rng, rscalar(rng, 1, N - 1), tier)
+    yield from asn1_coordinate_in_n_p_cases(rng, rscalar(rng, 1, N - 1))
     # raw garbage
     for ln in list(range(0, 140, 7)):
         yield ('garbage', 'sm2_dec %s %s %s %s' % (H(rscalar(rng, 1, N - 1)), hx(rb(rng, ln)), rng.choice('01'), rng.choice(['c1c2c3', 'c1c3c2'])), None)
@@ -597,6 +616,12 @@ def gen_c11(tier, rng):
         yield ('to-bytes', 'pt_bytes %s %s' % (E.jac(A, z1), rng.choice('01')), None)
     yield ('dbl-inf', 'pt_dbl %s' % E.jac(None, 1), None)
     yield ('valid-inf', 'pt_valid %s' % E.jac(None, 1), None)
+    # scalar multiplication of (X, Y, Z) and then of (X, Y, -Z) (= -P, same X and Y limbs) with the same scalar on one thread
+    Ah = rng.choice(pts); zh = rng.randrange(1, P); kh = H(rng.getrandbits(256))
+    jxh = E.jac(Ah, zh).split(':')
+    negzh = ':'.join([jxh[0], jxh[1], H((P - zh) * E.R % P)])
+    yield ('scalar-mul-history', 'seq pt_mul %s %s ; %s %s ; %s %s' % (':'.join(jxh), kh, negzh, kh, ':'.join(jxh), kh), None)
+    yield ('scalar-mul-history', 'seq pt_mul %s %s ; %s %s' % (E.jac(Ah, 1), kh, ':'.join([E.jac(Ah, 1).split(':')[0], E.jac(Ah, 1).split(':')[1], H((P - 1) * E.R % P)]), kh), None)
     # scalars
     ks = [0, 1, 2, 15, 16, 17, N - 1, N, N + 1, N + 26, (1 << 256) - 1, 1 << 255, (1 << 252) - 1,
           1 << 64, 1 << 128, 1 << 192, (1 << 255) + 5, (1 << 256) - (1 << 64), (7 << 128) | 5, (7 << 192) | (5 << 64)]
@@ -645,6 +670,7 @@ def gen_c14_sm2(tier, rng):
                ','.join(good_k(rng) for _ in range(ns)), ','.join(good_k(rng) for _ in range(ns))), None)
     # un-hooked randomness: statistics are gathered by a dedicated op
     n_ = 4000 if tier == 'thorough' else 600
+    yield ('frozen-sm2-rng-threads', 'sm2_rngthreads %d %d' % ((8, 40) if tier == 'thorough' else (4, 12)), 'OK drawn>=1 distinct=1')
     yield ('frozen-sm2-rng-stats', 'sm2_rngstats %d' % n_, 'OK in-range=1 distinct=1 bits-ok=1')
 
 
@@ -677,6 +703,17 @@ def gen_c15(tier, rng):
             for a_ in alts:
                 if a_ != v:
                     yield ('forge-' + which, pre + ' %s %s' % (which, a_.hex()), 'ERR')
+    # t = d + x~ r with all-zero 64-bit limbs ([t](P + [x~]R) through the 4-bit window multiplication): d = T - x~ r
+    for i_, T_ in enumerate(zero_limb_scalars_sm2(rng)[: 10 if tier == 'thorough' else 4]):
+        r_ = int(good_k(rng), 16)
+        xr = (1 << 127) + (E.mul(r_, E.G)[0] & ((1 << 127) - 1))
+        dz = (T_ - xr * r_) % N
+        od, orr = rscalar(rng, 1, N - 1), good_k(rng)
+        if 1 <= dz <= N - 2:
+            if i_ % 2:
+                yield ('t-with-zero-limbs', 'sm2_kex %s %s default default 16 %s %s -' % (H(od), H(dz), orr, H(r_)), None)
+            else:
+                yield ('t-with-zero-limbs', 'sm2_kex %s %s default default 16 %s %s -' % (H(dz), H(od), H(r_), orr), None)
     # the shared point at infinity: t_B = d_B + x2~ r_B = 0 (mod n) for the responder, t_A = 0 for the initiator: the run must fail
     xb_ = lambda x: (1 << 127) + (x & ((1 << 127) - 1))
     for who in ('B', 'A'):
@@ -721,6 +758,10 @@ def gen_c19(tier, rng):
         if tier == 'thorough' or i % 2 == 0:
             yield ('openssl-asn1-decrypt', 'sm2_dec_asn1 %s %s 0 c1c3c2' % (kc[idx][1], der), 'OK ' + msg)
     keys = edge_keys() + [rscalar(rng, 1, N - 1) for _ in range(20 if tier == 'thorough' else 5)]
+    # decoding P and then -P from their COMPRESSED encodings (same x, other prefix) on one thread, both orders
+    Qh = E.mul(rscalar(rng), E.G)
+    c02 = ('02' if Qh[1] % 2 == 0 else '03') + H(Qh[0]); c03 = ('03' if Qh[1] % 2 == 0 else '02') + H(Qh[0])
+    yield ('compressed-decode-history', 'seq pk_new %s ; %s ; %s ; %s' % (c02, c03, c02, E.enc(E.neg(Qh))), None)
     # keys whose public point has leading zero bytes in x or y: search small multiples
     found = 0
     k = 1
@@ -851,6 +892,7 @@ def gen_c19(tier, rng):
         yield ('asn1-shortest-document', 'sm2_ed_asn1 %s 5a %s' % (H(d), H(k_)), 'OK 5a')
         yield ('asn1-shortest-document', 'sm2_ed_asn1 %s %s %s' % (H(d), hx(rb(rng, 2)), H(k_)), None)
     yield from asn1_c3_short_cases(rng, d, tier)
+    yield from asn1_coordinate_in_n_p_cases(rng, d)
 
 
 def asn1_c3_short_cases(rng, d, tier):
@@ -867,8 +909,31 @@ def asn1_c3_short_cases(rng, d, tier):
             kk += 1
         else:
             continue
+        # the boundary between the two OCTET STRINGs moved: the hash field holds only k < 32 bytes, the rest is prepended to C2
+        for kq in (0, 1, 16, 31):
+            yield ('asn1-c3-boundary-moved', 'sm2_dec_asn1 %s %s 0 c1c3c2' % (H(d), _der_ct(_der_int(C1_[0]), _der_int(C1_[1]), c3_[:kq], c3_[kq:] + c2_).hex()), 'ERR')
         yield ('asn1-c3-leading-zero-control', 'sm2_dec_asn1 %s %s 0 c1c3c2' % (H(d), _der_ct(_der_int(C1_[0]), _der_int(C1_[1]), c3_, c2_).hex()), 'OK ' + m_.hex())
         yield ('asn1-c3-31-bytes', 'sm2_dec_asn1 %s %s 0 c1c3c2' % (H(d), _der_ct(_der_int(C1_[0]), _der_int(C1_[1]), c3_[1:], c2_).hex()), 'ERR')
+
+
+def asn1_coordinate_in_n_p_cases(rng, d):
+    """legitimate C1 whose x (resp. y) lies in [n, p): field elements are bounded by p, not by the group order n"""
+    Ppk_ = E.mul(d, E.G)  # noqa: F841  (the ciphertext is built for the holder of d through [d]C1)
+    from .sm9py import sm3 as _sm3
+    out = 0
+    x = N
+    while out < 2 and x < P:
+        y = E.lift_x(x)
+        if y is not None:
+            m_ = rb(rng, 6)
+            x2, y2 = E.mul(d, (x, y))
+            t_ = py_kdf(x2.to_bytes(32, 'big') + y2.to_bytes(32, 'big'), len(m_))
+            c2 = bytes(a ^ b for a, b in zip(m_, t_))
+            c3 = _sm3(x2.to_bytes(32, 'big') + m_ + y2.to_bytes(32, 'big'))
+            yield ('c1-coordinate-in-[n,p)', 'sm2_dec_asn1 %s %s 0 c1c3c2' % (H(d), _der_ct(_der_int(x), _der_int(y), c3, c2).hex()), 'OK ' + m_.hex())
+            yield ('c1-coordinate-in-[n,p)', 'sm2_dec %s 04%s%s%s%s 0 c1c3c2' % (H(d), H(x), H(y), c3.hex(), c2.hex()), 'OK ' + m_.hex())
+            out += 1
+        x += 1
 
 
 def py_kdf(z, n):
@@ -1031,6 +1096,10 @@ def gen_c20_sm2(tier, rng):
     for s_ in (b'zz', b'0', b'04' + b'g' * 128, b''):
         yield ('hex-garbage', 'pk_hex %s' % hx(s_), None)
         yield ('hex-garbage', 'sk_hex %s' % hx(s_), None)
+    # strings that are valid UTF-8 but not ASCII, with multi-byte characters straddling small byte offsets
+    for s_ in ('中文公钥', '🔑04', '0é' + '0' * 128, '\ufeff' + E.enc(E.mul(d, E.G)), '０４' + '8' * 128, 'é', '0' + '中' * 43, E.enc(E.mul(d, E.G))[:129] + 'é'):
+        yield ('hex-non-ascii', 'pk_hex %s' % hx(s_.encode()), None)
+        yield ('hex-non-ascii', 'sk_hex %s' % hx(s_.encode()), None)
     good_hex = E.enc(E.mul(d, E.G)).encode()
     yield ('hex-valid', 'pk_hex %s' % hx(good_hex), None)
     yield ('hex-valid', 'sk_hex %s' % hx(H(d).encode()), None)
